@@ -319,6 +319,10 @@ class MarshalSerializer(SerializerBase):
         return marshal.dumps((obj, method, vargs, kwargs))
 
     def dumps(self, data):
+        if type(data) is list:
+            # convert the items too, like dumpsCall does for the arguments: the result list of a batch call
+            # can hold class instances (such as the wrapper of a raised exception) that marshal cannot dump itself
+            data = [self.convert_obj_into_marshallable(value) for value in data]
         return marshal.dumps(self.convert_obj_into_marshallable(data))
 
     def loadsCall(self, data):
